@@ -317,6 +317,7 @@ class HasherHybrid(CbMixin, ProgMixin):
         piece_length: int,
         progress: int = 1,
         progress_bar=None,
+        pad: bool = True,
     ):
         """
         Construct Hasher class instances for each file in torrent.
@@ -329,6 +330,7 @@ class HasherHybrid(CbMixin, ProgMixin):
         self.root = None
         self.padding_piece = None
         self.padding_file = None
+        self.pad = pad
         self.amount = piece_length // BLOCK_SIZE
         self.progress = progress
         self.progbar = progress_bar
@@ -391,7 +393,7 @@ class HasherHybrid(CbMixin, ProgMixin):
             layer_hash = merkle_root(blocks)
             self.cb(layer_hash)
             self.layer_hashes.append(layer_hash)
-            if plength > 0:
+            if plength > 0 and self.pad:
                 self.padding_file = {
                     "attr": "p",
                     "length": plength,
@@ -450,6 +452,7 @@ class FileHasher(CbMixin, ProgMixin):
         progress: int = 1,
         hybrid: bool = False,
         progress_bar=None,
+        pad: bool = True,
     ):
         """
         Construct Hasher class instances for each file in torrent.
@@ -471,6 +474,7 @@ class FileHasher(CbMixin, ProgMixin):
             self.progbar = self.get_progress_tracker(size, self.path)
         self.current = open(path, "rb")
         self.hybrid = hybrid
+        self.pad = pad
 
     def __iter__(self):
         """Return `self`: needed to implement iterator implementation."""
@@ -544,7 +548,7 @@ class FileHasher(CbMixin, ProgMixin):
                 self.progbar.close_out()
             self._calculate_root()
         if self.hybrid:
-            if plength > 0:
+            if plength > 0 and self.pad:
                 self.padding_file = {
                     "attr": "p",
                     "length": plength,
